@@ -1,6 +1,344 @@
-"""C19 rules (placeholder: fail-closed until the rules are implemented)."""
-from ..loader import AnalysisError
+"""C19 - workflow definition: paths and names mean the same wherever gwf is run."""
+import ast
+import re
+
+try:
+    import re._parser as sre_parse
+    import re._constants as sre_c
+except ImportError:  # pragma: no cover (python < 3.11)
+    import sre_parse
+    import sre_constants as sre_c
+
+from ..consteval import CantEval
+from ..index import dotted, walk_no_nested, loc
+from ..symeval import Obj, PureInterp, Raised, Unsupported, tok
+from .c03 import rule_norm_path
+from .persist import _calls
+
+CORE = "gwf.core"
+IDENT_FIRST = set("abcdefghijklmnopqrstuvwxyzABCDEFGHIJKLMNOPQRSTUVWXYZ_")
+IDENT_REST = IDENT_FIRST | set("0123456789.")
+
+
+def rule_fallback(ctx, r):
+    idx = ctx.index
+    wf = idx.cls("gwf.workflow:Workflow")
+    tft = idx.method(wf, "target_from_template")
+    con = f"{tft.module.relpath}::{tft.qual}"
+    expr = None
+    for c in _calls(tft.node):
+        if isinstance(c.func, ast.Name) and c.func.id == "Target":
+            for k in c.keywords:
+                if k.arg == "working_dir":
+                    expr = k.value
+    if expr is None:
+        r.violation(con, "target_from_template does not pass a working_dir to the new Target", tft.where)
+        return
+    at = idx.cls(f"{CORE}:AnonymousTarget")
+    fld = at.field("working_dir")
+    default = "<no default>"
+    if fld is not None and isinstance(fld[2], ast.Call):
+        for k in fld[2].keywords:
+            if k.arg == "default":
+                try:
+                    default = ctx.ev.eval(k.value, at.module)
+                except CantEval:
+                    default = "<unevaluable>"
+    interp = PureInterp(ctx)
+    WFD = tok("WORKFLOW_DIR")
+    res = {}
+    for label, tv in (("default", default), ("explicit", "/explicit")):
+        try:
+            res[label] = interp.eval(expr, {"template": Obj("template", working_dir=tv), "self": Obj("wf", working_dir=WFD)}, tft.module)
+        except (Raised, Unsupported) as exc:
+            res[label] = f"<{exc}>"
+    r.check(res["default"] == WFD, con + "::fallback", f"a template without working_dir (default {default!r}) gets the workflow's directory",
+            f"for a template created without working_dir (field default {default!r}) the expression `{ast.unparse(expr)}` yields {res['default']!r}, not the workflow's "
+            "working directory: relative paths of template/map targets are resolved against the directory gwf is started from", loc(expr, tft.module))
+    r.check(res["explicit"] == "/explicit", con + "::explicit", "an explicit template working_dir is respected",
+            f"an explicit template working_dir is replaced by {res['explicit']!r}", loc(expr, tft.module))
+    tm = idx.method(wf, "target")
+    wd = None
+    for c in _calls(tm.node):
+        if isinstance(c.func, ast.Name) and c.func.id == "Target":
+            for k in c.keywords:
+                if k.arg == "working_dir":
+                    wd = ast.unparse(k.value)
+    r.check(wd == "self.working_dir", f"{tm.module.relpath}::{tm.qual}", "Workflow.target passes working_dir=self.working_dir",
+            f"Workflow.target creates the Target with working_dir={wd}", tm.where)
+    mp = idx.method(wf, "map")
+    via = any(isinstance(c.func, ast.Attribute) and c.func.attr == "target_from_template" and dotted(c.func.value) == "self" for c in _calls(mp.node))
+    r.check(via, f"{mp.module.relpath}::{mp.qual}", "map creates its targets through target_from_template", "map does not create its targets through target_from_template", mp.where)
+    # default working dir of the workflow: directory of the real path of the defining file
+    gwd = idx.method(wf, "_get_working_dir")
+    txt = ast.unparse(gwd.node) if gwd else ""
+    ok = gwd is not None and "inspect.getfile(sys._getframe(" in txt and any(
+        ast.unparse(n.value).replace(" ", "") in ("os.path.dirname(os.path.realpath(filename))", "str(Path(filename).resolve().parent)", "os.path.realpath(os.path.dirname(filename))")
+        for n in walk_no_nested(gwd.node) if isinstance(n, ast.Return))
+    r.check(ok, f"{wf.module.relpath}::Workflow._get_working_dir", "default working_dir = dirname(realpath(file that created the workflow))",
+            "the workflow's default working directory is not the directory of the *real* path of the defining file: a project reached through a symlink (or `-f` from elsewhere) "
+            "gets other path strings than when gwf is run inside the project, so graphs differ", gwd.where if gwd else wf.where)
+
+
+CWD_SOURCES = {"os.getcwd", "os.getcwdb", "pathlib.Path.cwd", "os.curdir", "os.path.curdir"}
+
+
+def rule_cwd_taint(ctx, r):
+    idx = ctx.index
+    allowed = {"gwf.utils:find_workflow": "search for the workflow file starts at the invoking directory",
+               "gwf.cli:main": "`init` fallback when no workflow file exists"}
+    n = 0
+    for f in idx.functions.values():
+        for node in walk_no_nested(f.node):
+            canon = None
+            if isinstance(node, ast.Call) and isinstance(node.func, (ast.Name, ast.Attribute)):
+                canon = idx.canon(node.func, f.module)
+            elif isinstance(node, ast.Attribute) and isinstance(node.ctx, ast.Load):
+                c = idx.canon(node, f.module)
+                canon = c if c in ("os.curdir", "os.path.curdir") else None
+            if canon in CWD_SOURCES:
+                n += 1
+                r.check(f.key in allowed, f"{f.module.relpath}::{f.qual}::{canon}", allowed.get(f.key, ""),
+                        f"{f.qual} reads the invoking directory ({canon}): paths, graph or state location would depend on where gwf is started", loc(node, f.module))
+            if canon in ("os.path.abspath", "os.path.relpath") and isinstance(node, ast.Call) and node.args:
+                a = node.args[0]
+                joined = isinstance(a, ast.Call) and idx.canon(a.func, f.module) == "os.path.join" and a.args and "working_dir" in ast.unparse(a.args[0])
+                n += 1
+                r.check(joined or f.key in allowed, f"{f.module.relpath}::{f.qual}::{canon}", "abspath of a path joined to a working directory",
+                        f"`{ast.unparse(node)[:70]}` resolves a path against the invoking directory (it is not joined to a project/target working directory first)",
+                        loc(node, f.module))
+    # cli.main: everything derives from the found workflow file
+    main = idx.func("gwf.cli:main")
+    txt = ast.unparse(main.node)
+    checks = [
+        ("working_dir = path.parent" in txt, "working_dir", "working_dir = <workflow file>.parent"),
+        ("working_dir.joinpath('.gwf').mkdir" in txt and "working_dir.joinpath('.gwf', 'logs').mkdir" in txt, "state-dir", ".gwf and .gwf/logs next to the workflow file"),
+        ("FileConfig.load(working_dir.joinpath('.gwfconf.json'))" in txt, "config-file", ".gwfconf.json next to the workflow file"),
+        ("working_dir=str(working_dir)" in txt and "workflow_file=path" in txt, "context", "Context(working_dir=<workflow file dir>, workflow_file=<found path>)"),
+    ]
+    for ok, key, desc in checks:
+        n += 1
+        r.check(ok, f"{main.module.relpath}::main::{key}", desc, f"cli.main no longer derives this from the found workflow file: {desc}", main.where)
+    fw = idx.func("gwf.utils:find_workflow")
+    t = ast.unparse(fw.node)
+    r.check("current_dir = current_dir.parent" in t and "workflow_path.exists()" in t and "Path(current_dir.anchor)" in t, f"{fw.module.relpath}::{fw.qual}",
+            "the workflow file is searched upwards from the invoking directory to the root", "find_workflow no longer searches the parent directories up to the root", fw.where)
+    ctxc = idx.cls(f"{CORE}:Context")
+    for prop, want in (("config_dir", "os.path.join(self.working_dir, '.gwf')"), ("logs_dir", "os.path.join(self.config_dir, 'logs')")):
+        m = idx.method(ctxc, prop)
+        rets = [ast.unparse(x.value) for x in walk_no_nested(m.node) if isinstance(x, ast.Return)] if m else []
+        r.check(rets == [want], f"{ctxc.module.relpath}::Context.{prop}", want, f"Context.{prop} is {rets}", ctxc.where)
+    for key, fn in (("gwf.core:get_spec_hashes", "working_dir"), ("gwf.backends.base:TrackingBackend._get_state_path", "self.working_dir")):
+        f = idx.func(key)
+        t = ast.unparse(f.node)
+        r.check(f"os.path.join({fn}, '.gwf'" in t, f"{f.module.relpath}::{f.qual}", f"state file under {fn}/.gwf", f"{f.qual} does not place its state file under {fn}/.gwf", f.where)
+
+
+def _regex_facts(pattern):
+    """(first position chars, other chars, anchors, problems) of a simple anchored identifier regex."""
+    tree = sre_parse.parse(pattern)
+    problems = []
+    first, rest = set(), set()
+    starts = ends = None
+    consumed = [False]
+
+    def chars_of(item):
+        op, av = item
+        out = set()
+        if op is sre_c.LITERAL:
+            out.add(chr(av))
+        elif op is sre_c.IN:
+            for o2, a2 in av:
+                if o2 is sre_c.NEGATE:
+                    problems.append("negated character class")
+                elif o2 is sre_c.LITERAL:
+                    out.add(chr(a2))
+                elif o2 is sre_c.RANGE:
+                    out.update(chr(c) for c in range(a2[0], a2[1] + 1))
+                elif o2 is sre_c.CATEGORY:
+                    problems.append(f"category {a2} in class")
+        elif op is sre_c.ANY:
+            problems.append("'.' matches any character")
+        elif op is sre_c.NOT_LITERAL:
+            problems.append("negated literal")
+        elif op is sre_c.CATEGORY:
+            problems.append(f"category {av}")
+        return out
+
+    def walk(items, at_start):
+        nonlocal starts, ends
+        for item in items:
+            op, av = item
+            if op is sre_c.AT:
+                if av is sre_c.AT_BEGINNING or av is sre_c.AT_BEGINNING_STRING:
+                    starts = "start"
+                elif av is sre_c.AT_END:
+                    ends = "$"
+                elif av is sre_c.AT_END_STRING:
+                    ends = "\\Z"
+                continue
+            if op in (sre_c.MAX_REPEAT, sre_c.MIN_REPEAT):
+                lo, hi, sub = av
+                walk(sub, at_start and not consumed[0])
+                continue
+            if op is sre_c.SUBPATTERN:
+                walk(av[3], at_start)
+                continue
+            if op is sre_c.BRANCH:
+                for alt in av[1]:
+                    walk(alt, at_start)
+                continue
+            cs = chars_of(item)
+            if not consumed[0]:
+                first.update(cs)
+                consumed[0] = True
+            else:
+                rest.update(cs)
+
+    walk(list(tree), True)
+    return first, rest, starts, ends, problems
+
+
+def rule_name_validator(ctx, r):
+    idx = ctx.index
+    ivn = idx.func("gwf.utils:is_valid_name")
+    con = f"{ivn.module.relpath}::{ivn.qual}"
+    call = None
+    for c in _calls(ivn.node):
+        cn = idx.canon(c.func, ivn.module) if isinstance(c.func, (ast.Name, ast.Attribute)) else None
+        if cn in ("re.match", "re.fullmatch", "re.search"):
+            call = (c, cn)
+    if call is None or not (call[0].args and isinstance(call[0].args[0], ast.Constant)):
+        r.violation(con, "is_valid_name does not validate with a constant regular expression", ivn.where)
+        return
+    c, fn = call
+    pat = c.args[0].value
+    first, rest, starts, ends, problems = _regex_facts(pat)
+    anchored_start = fn in ("re.match", "re.fullmatch") or starts == "start"
+    anchored_end = fn == "re.fullmatch" or ends == "\\Z"
+    if not anchored_end and ends == "$":
+        r.violation(con + "::end-anchor", f"{fn.split('.')[1]}({pat!r}) ends with '$', which also matches just before a trailing newline: the name 'foo\\n' is accepted "
+                    "(and then used as a file name, a job name and inside a quoted export)", loc(c, ivn.module))
+    elif not anchored_end:
+        r.violation(con + "::end-anchor", f"{fn.split('.')[1]}({pat!r}) is not anchored at the end: any suffix is accepted", loc(c, ivn.module))
+    else:
+        r.ok(con + "::end-anchor", f"{fn.split('.')[1]}({pat!r}) must consume the whole name", loc(c, ivn.module))
+    r.check(anchored_start, con + "::start-anchor", "anchored at the start", f"{fn}({pat!r}) is not anchored at the start", loc(c, ivn.module))
+    bad_first = sorted(first - IDENT_FIRST)
+    bad_rest = sorted(rest - IDENT_REST)
+    r.check(not problems and not bad_first and not bad_rest and first, con + "::alphabet", "first char [A-Za-z_], others [A-Za-z0-9._]",
+            f"the name pattern {pat!r} admits characters outside the identifier-like alphabet (first: {bad_first}, other: {bad_rest}, {problems}): "
+            "names become file names and shell/scheduler tokens", loc(c, ivn.module))
+    ret_ok = any(isinstance(n, ast.Return) and ast.unparse(n.value).endswith("is not None") for n in walk_no_nested(ivn.node))
+    r.check(ret_ok, con + "::result", "valid iff the pattern matched", "is_valid_name does not return whether the pattern matched", ivn.where)
+    # attached to Target.name
+    tgt = idx.cls(f"{CORE}:Target")
+    vm = None
+    for m in tgt.methods.values():
+        if "name.validator" in m.decorator_names():
+            vm = m
+    ok = vm is not None and any(isinstance(n, ast.If) and "is_valid_name(" in ast.unparse(n.test) and isinstance(n.test, ast.UnaryOp) and any(
+        isinstance(s, ast.Raise) for s in n.body) for n in walk_no_nested(vm.node))
+    r.check(ok, f"{tgt.module.relpath}::Target.name.validator", "Target rejects names is_valid_name refuses (GWFError at definition time)",
+            "Target.name is not validated with is_valid_name when the target is defined", tgt.where)
+
+
+def rule_path_domain(ctx, r):
+    idx = ctx.index
+    cp = idx.func(f"{CORE}:_check_path")
+    con = f"{cp.module.relpath}::{cp.qual}"
+    p = cp.positional_params()[0]
+    # structural: the checked string is the parameter converted by fspath only (no strip/slice/replace)
+    lossy = []
+    for n in walk_no_nested(cp.node):
+        if isinstance(n, ast.Call) and isinstance(n.func, ast.Attribute) and n.func.attr in ("strip", "lstrip", "rstrip", "replace", "splitlines", "split", "lower", "translate"):
+            lossy.append(n)
+        if isinstance(n, ast.Subscript) and isinstance(n.slice, ast.Slice):
+            lossy.append(n)
+    r.check(not lossy, con + "::whole-string", "the control-character check sees the whole path as it will be stored",
+            f"the path is transformed (`{ast.unparse(lossy[0])[:50] if lossy else ''}`) before it is checked, but the target keeps the original: control characters removed by the "
+            "transformation (a trailing newline, a leading tab) are accepted", loc(lossy[0], cp.module) if lossy else cp.where)
+    conv = any(isinstance(n, ast.Call) and isinstance(n.func, (ast.Name, ast.Attribute)) and idx.canon(n.func, cp.module) in ("os.fspath", "builtins.str")
+               and n.args and dotted(n.args[0]) == p for n in walk_no_nested(cp.node))
+    r.check(conv, con + "::fspath", "path objects are converted with fspath() before the character check",
+            "path objects (os.PathLike) are not converted before their characters are inspected: a pathlib.Path raises TypeError instead of being accepted", cp.where)
+    # folding the pure validator over a finite witness set
+    interp = PureInterp(ctx)
+    want = {"a.txt": None, "dir/a b.txt": None, "": "InvalidPathError", "a\nb": "InvalidPathError", "x\n": "InvalidPathError", "\tx": "InvalidPathError",
+            "x\r\n": "InvalidPathError", "\x07": "InvalidPathError", "ü.txt": None}
+    got = {}
+    for s_, w in want.items():
+        try:
+            interp.call(cp, (s_,))
+            got[s_] = None
+        except Raised as exc:
+            got[s_] = exc.kind
+        except Unsupported as exc:
+            got[s_] = f"<{exc}>"
+    diff = {k: (got[k], want[k]) for k in want if got[k] != want[k]}
+    r.check(not diff, con + "::witnesses", f"{len(want)} witness paths (empty, control characters at start/middle/end, ordinary) decided as the property says",
+            f"path validation decides {diff} (got, expected)", cp.where)
+    tgt = idx.cls(f"{CORE}:Target")
+    for fld in ("inputs", "outputs"):
+        f = tgt.field(fld)
+        ok = f is not None and isinstance(f[2], ast.Call) and any(k.arg == "validator" and dotted(k.value) == "_validate_path" for k in f[2].keywords)
+        r.check(ok, f"{tgt.module.relpath}::Target.{fld}", "validated by _validate_path", f"Target.{fld} is not validated when the target is defined", tgt.where)
+    vp = idx.func(f"{CORE}:_validate_path")
+    t = ast.unparse(vp.node)
+    r.check("for path in _flatten(value)" in t and "_check_path(path)" in t, f"{vp.module.relpath}::{vp.qual}", "every flattened element is checked",
+            "_validate_path does not check every flattened path", vp.where)
+    wdv = None
+    for m in tgt.methods.values():
+        if "working_dir.validator" in m.decorator_names():
+            wdv = m
+    r.check(wdv is not None and "_check_path(value)" in ast.unparse(wdv.node), f"{tgt.module.relpath}::Target.working_dir.validator", "working_dir is checked too",
+            "Target.working_dir is not validated", tgt.where)
+
+
+def rule_unique_and_map(ctx, r):
+    idx = ctx.index
+    wf = idx.cls("gwf.workflow:Workflow")
+    add = idx.method(wf, "_add_target")
+    t = ast.unparse(add.node)
+    guard = any(isinstance(n, ast.If) and ast.unparse(n.test) == "target.name in self.targets" and any(isinstance(s_, ast.Raise) and "WorkflowError" in ast.unparse(s_) for s_ in n.body)
+                for n in walk_no_nested(add.node))
+    r.check(guard and "self.targets[target.name] = target" in t, f"{add.module.relpath}::{add.qual}", "duplicate names raise WorkflowError before the store",
+            "adding a target does not reject a name that already exists in the workflow", add.where)
+    writers = []
+    for f in idx.functions.values():
+        for n in walk_no_nested(f.node):
+            if isinstance(n, ast.Assign) and isinstance(n.targets[0], ast.Subscript) and ast.unparse(n.targets[0].value) == "self.targets" and f.cls is wf:
+                writers.append(f)
+    r.check(writers and all(w.key == add.key for w in writers), f"{wf.module.relpath}::Workflow.targets", "the target table is written only by _add_target",
+            f"the target table is also written by {[w.qual for w in writers if w.key != add.key]}, bypassing the uniqueness check", wf.where)
+    for meth in ("target", "target_from_template"):
+        m = idx.method(wf, meth)
+        r.check(any(isinstance(c.func, ast.Attribute) and c.func.attr == "_add_target" for c in _calls(m.node)), f"{m.module.relpath}::{m.qual}::add",
+                "new targets are registered through _add_target", f"Workflow.{meth} does not register the target through _add_target", m.where)
+    mp = idx.method(wf, "map")
+    interp = PureInterp(ctx)
+    for namer in ("template_namer", "string_namer"):
+        f = mp.nested.get(namer)
+        if f is None:
+            r.violation(f"{mp.module.relpath}::{mp.qual}::{namer}", f"built-in namer {namer} not found", mp.where)
+            continue
+        rets = [n for n in walk_no_nested(f.node) if isinstance(n, ast.Return)]
+        uses_idx = all("idx" in {x.id for x in ast.walk(rt.value) if isinstance(x, ast.Name)} or any(k.arg == "idx" for c in _calls(rt.value) for k in c.keywords) for rt in rets)
+        r.check(rets and uses_idx, f"{f.module.relpath}::{f.qual}", "the generated name embeds the item index (distinct, deterministic names)",
+                f"{namer} does not embed the item index: map would generate colliding names", f.where)
+    enum = any(isinstance(n, ast.For) and isinstance(n.iter, ast.Call) and dotted(n.iter.func) == "enumerate" and dotted(n.iter.args[0]) == "inputs" for n in walk_no_nested(mp.node))
+    r.check(enum, f"{mp.module.relpath}::{mp.qual}::enumerate", "one target per item, index from enumerate(inputs)", "map does not enumerate its inputs", mp.where)
 
 
 def run(ctx):
-    raise AnalysisError("rules for C19 not implemented yet")
+    r1 = ctx.rule("R1", "targets inherit the workflow's working directory (direct, template, map); default = directory of the defining file's real path", min_instances=5)
+    rule_fallback(ctx, r1)
+    r2 = ctx.rule("R2", "nothing but the workflow-file search (and init) reads the invoking directory; state paths derive from the workflow file's directory", min_instances=10)
+    rule_cwd_taint(ctx, r2)
+    rule_norm_path(ctx, r2)
+    r3 = ctx.rule("R3", "target names: the validator's regular language is identifier-like and excludes a trailing newline", min_instances=5)
+    rule_name_validator(ctx, r3)
+    r4 = ctx.rule("R4", "paths: non-empty str/PathLike without control characters anywhere; validators attached to inputs, outputs, working_dir", min_instances=6)
+    rule_path_domain(ctx, r4)
+    r5 = ctx.rule("R5", "unique names; map creates one target per item with index-bearing names", min_instances=6)
+    rule_unique_and_map(ctx, r5)
